@@ -43,3 +43,20 @@ impl Condvar {
     pub fn notify_all(&self) -> usize { point(Op::CondNotifyAll(self.id)); 0 }
     pub fn wait<T: ?Sized>(&self, g: &mut MutexGuard<'_, T>) { point(Op::CondWait(self.id, g.m.id)); point(Op::CondReacquire(self.id, g.m.id)); }
 }
+
+// --- conformance helpers (used only by the shim conformance table) ---------------------------
+impl<T: ?Sized> RwLock<T> {
+    /// would `read()` be admitted right now (no writer holds the lock)?
+    pub fn stub_can_read(&self) -> bool {
+        with_obj(self.id, |o| matches!(o, Obj::RwLock { writer: None, .. })).unwrap_or(true)
+    }
+    /// would `write()` be admitted right now?
+    pub fn stub_can_write(&self) -> bool {
+        with_obj(self.id, |o| matches!(o, Obj::RwLock { writer: None, readers: 0, .. })).unwrap_or(true)
+    }
+}
+impl<T: ?Sized> Mutex<T> {
+    pub fn stub_can_lock(&self) -> bool {
+        with_obj(self.id, |o| matches!(o, Obj::Mutex { owner: None })).unwrap_or(true)
+    }
+}
